@@ -5,6 +5,9 @@ ROOT = os.path.dirname(os.path.dirname(os.path.abspath(__file__)))
 
 # id -> (level, technique, level text, level note, design ref)
 CHECKS = {
+ "C10": ("exploration", "three runtime monitors over grammar texts: behaviour of generated parsers under spelling variants (reference model), tree equality against an independent hand-written reader of the documented syntax, and rejection of mutated/random texts",
+         "Spelling variants of every construct are run through the real front end, generator and compiler and compared with the reference interpreter of the intended AST; the rule tree the real front end builds (read through the tree package's exported methods) must equal, node by node, the tree of an independent reader; whenever that reader rejects a mutated or random text peg must reject with an error and never crash; a sample also goes through the CLI.",
+         "Held on the texts produced; trusted: the independent reader (internal/pegsyntax), written from docs/peg-file-syntax.md and the language grammar in peg.peg read as a PEG; ASCII case folding.", "5/C10"),
  "C09": ("exploration", "Go race detector + determinism monitor across processes, driven by a build-tagged schedule-perturbation hook whose interleaving log measures the distinct interleavings observed",
          "Each (grammar, options, args) is generated repeatedly in separate processes under GOMAXPROCS 1/2/4/16 and seeded perturbation of the two analysis goroutines; exit, stderr and sha256(stdout) must be identical; the same under the race detector (hook without synchronisation); concurrent Compile calls on independent trees in one -race process must equal the sequential results with zero reports.",
          "Held on the schedules produced (counted in the evidence); races on schedules never produced are not excluded; no bit-for-bit replay (rr unavailable).", "5/C09"),
